@@ -333,7 +333,7 @@ def op_mdd(w, ins):
 def op_bdd_to_mdd(w, ins):
     """bdd_to_mdd on M0 (raw flavour, reordering off)."""
     g = w.mgrs[0]
-    if g.flavor != 'raw' or g.api.configure()['reordering']:
+    if g.flavor != 'raw':
         return 'skip'
     sn = w.snapshot(0)
     order = list(sn.order or [])
